@@ -20,6 +20,8 @@ Case (driver "view"):
                                                CONF_CHANGED each; only then it applies (and announces) or refuses ours
              {"op": "edit", "o": name, "v": element, "case": k},               list option: read, append (left unsaved)
              {"op": "assign", "o": name, "v": value, "case": k},               assign (left unsaved)
+             {"op": "assign_from", "o": B, "src": A, "case": k, "src_case": k},  cfg.B = cfg.A (the list object read from A,
+                                               an option of the same type), then save()
              {"op": "save", "accept": bool},                                   save(); the reference Tor accepts / refuses (552)
              {"op": "read", "o": name, "case": k},
              {"op": "edit_save", "o": name, "v": element, "case": k},          list option: read, append, save
@@ -49,7 +51,7 @@ RULE = ("Hypothesis-generated cases: an option table of 2..8 options over every 
         "CONF_CHANGED events from another controller placed between any two answers; then 1..9 chunks of steps: "
         "CONF_CHANGED events (1..3 options each, 0/1/many values, bare key = unset, only real changes are "
         "announced), reads under four spellings of the name, read-append-save on list options, assign-save, "
-        "socks_endpoint(), local edits/assignments left unsaved, save() accepted or refused, and (one chunk in four) a "
+        "socks_endpoint(), assigning an option the list read from another option of its type, local edits/assignments left unsaved, save() accepted or refused, and (one chunk in four) a "
         "local change that is still unsaved or was refused when Tor announces a change of the same option, or (one in "
         "eight) a save() whose SETCONF Tor leaves unanswered while it announces another controller's change of the "
         "same / other options and then accepts or refuses; with or "
@@ -88,6 +90,9 @@ ASSUMPTIONS = [
     "options we sent); after 5xx an option announced while the SETCONF was unanswered must read as announced (not "
     "an older snapshot, not the refused value), other refused options may read Tor's value or the refused one; "
     "while the SETCONF is unanswered a read may show the announced value or the one on its way to Tor",
+    "cfg.B = cfg.A (B assigned the list object read from A, same declared type): afterwards the two options are "
+    "independent - an edit of one leaves the other's view alone and each SETCONF names the option that was edited; "
+    "not generated while A has an unsaved change or is empty",
     "events during the attach: Tor emits them only after it has answered the SETEVENTS that subscribes; each "
     "GETCONF answer shows the reference store at the moment it is answered; after the attach completes the view "
     "must equal the store's final values whatever the order of answers and events was",
@@ -165,9 +170,16 @@ def cases(draw, max_steps=9):
     opts = draw(cm.option_tables("c11", min_size=2, max_size=7))
     if draw(st.integers(0, 2)) and not any(o["name"] == "SocksPort" for o in opts):
         opts.insert(draw(st.integers(0, len(opts))), draw(cm.option_record("SocksPort", "c11")))
+    if draw(st.integers(0, 2)) == 0:
+        # a second option of the type of one that is there (for "B = the list read from A")
+        first = draw(st.sampled_from([o for o in opts if simconf.is_list_type(o["type"])]))
+        twins = [n for n, t in cm.POOL if t == first["type"] and all(o["name"] != n for o in opts)]
+        if twins:
+            opts.append(draw(cm.option_record(draw(st.sampled_from(twins)), "c11")))
     lists = [o for o in opts if simconf.is_list_type(o["type"])]
     spell = st.sampled_from([0, 0, 1, 2, 3])
     multis = [o for o in opts if o["type"] in ("LineList", "PortLines")]
+    pairs = [(a, b) for a in lists for b in lists if a["type"] == b["type"] and a["name"] != b["name"]]
     unsettable = [o for o in opts if o["type"] in ("String", "Filename", "LineList", "CommaList", "RouterList")]
 
     @st.composite
@@ -187,7 +199,21 @@ def cases(draw, max_steps=9):
     def chunk(draw):
         """One step, or a local change that is still pending (or was refused) when Tor announces a
         change of the same option by another controller."""
-        k = draw(st.integers(0, 7))
+        k = draw(st.integers(0, 9))
+        if k >= 8 and pairs:
+            # B = the list object read from A (same type), saved; then either is edited and saved: the two views
+            # stay independent and each SETCONF names the option that was edited
+            a, b = draw(st.sampled_from(pairs))
+            seq = []
+            if draw(st.booleans()):
+                # make Tor's B equal to A first, so that the assignment changes nothing and Tor announces nothing
+                seq.append({"op": "event", "changes": [[b["name"], "=" + a["name"]]]})
+            seq.append({"op": "assign_from", "o": b["name"], "src": a["name"], "case": draw(spell), "src_case": draw(spell)})
+            for _ in range(draw(st.integers(1, 3))):
+                t = draw(st.sampled_from([a, b]))
+                seq.append({"op": "edit_save", "o": t["name"], "v": draw(_elements(t["type"])), "case": draw(spell)})
+            seq.append({"op": "read", "o": draw(st.sampled_from([a, b]))["name"], "case": draw(spell)})
+            return seq
         if k >= 3:
             return [draw(step())]
         o = draw(st.sampled_from(opts))
@@ -340,6 +366,7 @@ class _Run(object):
         self.tracked_after_event = 0
         self.pending_event_checked = 0
         self.overtaken_refused = 0
+        self.aliased = 0
         self.late_boot_events = []
         boot_events = list(case.get("boot_events") or [])
         if not self.attach:
@@ -508,6 +535,10 @@ class _Run(object):
         infos = {}
         for name, value in s["changes"]:
             m = self.opts[name]
+            if isinstance(value, str) and value.startswith("="):
+                value = self.sim.get(value[1:])         # "=Other": another controller copied Other's value
+                if value is None and m.typ == "PortLines":
+                    continue
             if value is None and m.typ not in simconf.CAN_BE_UNSET[:3] + simconf.CAN_BE_UNSET[4:]:
                 raise HarnessError("case unsets %s (%s) by event" % (name, m.typ))
             if self.sim.get(name) == value:
@@ -840,6 +871,45 @@ class _Run(object):
         m.alts.append(view)
         return True
 
+    def do_assign_from(self, s):
+        """cfg.B = cfg.A: option B is assigned the very list object read from option A (same type)."""
+        a, b = self.opts[s["src"]], self.opts[s["o"]]
+        if a.typ != b.typ or not a.is_list or a is b:
+            raise HarnessError("assign_from needs two different list options of one type: %r" % (s,))
+        if a.unsure or a.pend is not None or a.alts:
+            self.res.excluded.append("assign-from-an-option-with-a-local-change-pending")
+            return
+        try:
+            lst = getattr(self.cfg, cm.mangle(a.name, s.get("src_case", 0)))
+        except Exception as e:
+            self.res.bad("read-raised", "%s: %r" % (a.name, e))
+            self.dead = True
+            return
+        if not isinstance(lst, list) or not self.acceptable(a, lst):
+            self.res.bad(self._tag(a, lst), "%s reads %r, expected %r" % (a.name, lst, a.want))
+            self.dead = True
+            return
+        if a.typ in ("CommaList", "RouterList") and list(lst) == [""]:
+            self.res.excluded.append("append-to-blank-shaped-empty-comma-list")
+            return
+        vals = [str(x) for x in lst]
+        if not vals:
+            self.res.excluded.append("assign-from-an-empty-list")       # emptied lists are C10's known finding
+            return
+        nm = cm.mangle(b.name, s.get("case", 0))
+        try:
+            setattr(self.cfg, nm, lst)
+        except Exception as e:
+            self.res.bad("name-not-matched-case-insensitively" if nm != b.name else "assign-raised", "%s = <%s>: %r" % (nm, a.name, e))
+            self.dead = True
+            return
+        b.pend = {"kind": "assign", "vals": vals, "view": list(vals), "clobbered": False, "refused": False}
+        b.alts.append(list(vals))
+        self.res.label("assigned-the-list-read-from-another-option:" + b.typ)
+        if self._save_all(True, "%s = cfg.%s" % (nm, a.name)):
+            self.aliased += 1
+            self.check_all("saving %s = cfg.%s" % (b.name, a.name))
+
     def do_edit_save(self, s):
         origin = self.do_edit(s)
         if origin is None:
@@ -959,6 +1029,8 @@ def drive_view(case):
             run.do_edit(s)
         elif op == "assign":
             run.do_assign(s)
+        elif op == "assign_from":
+            run.do_assign_from(s)
         elif op == "save":
             run.do_save(s)
         elif op == "edit_save":
@@ -1060,6 +1132,21 @@ def _fixed_cases():
                              ev(("Nickname", ["theirs"])), rd("Nickname"), ev(("Nickname", None)), rd("Nickname"),
                              {"op": "edit", "o": "NodeFamily", "v": "a,b", "case": 0}, {"op": "save", "accept": False},
                              ev(("NodeFamily", ["c,d", "e,f"])), rd("NodeFamily"), {"op": "save", "accept": True}])
+    # B = the list read from A (same type): independent afterwards
+    t7 = [O("ExcludeNodes", "RouterList", value=["bad1,bad2"]), O("ExitNodes", "RouterList", value=["bad1,bad2"]),
+          O("LongLivedPorts", "CommaList", value=["21,22"]), O("FirewallPorts", "CommaList", value=["80"]),
+          O("SocksPort", "PortLines", value=["9050"]), O("DNSPort", "PortLines", value=["9050"]),
+          O("Log", "LineList", value=["notice stdout"]), O("NodeFamily", "LineList", value=["a,b"])]
+    af = lambda b_, a_: {"op": "assign_from", "o": b_, "src": a_, "case": 0, "src_case": 1}
+    es = lambda o, v: {"op": "edit_save", "o": o, "v": v, "case": 0}
+    for echo in (False, True):
+        b = dict(base, echo=echo, opts=t7)
+        yield dict(b, steps=[af("ExitNodes", "ExcludeNodes"), es("ExcludeNodes", "bad3"), rd("ExitNodes"), es("ExitNodes", "bad4"),
+                             rd("ExcludeNodes")])
+        yield dict(b, steps=[af("DNSPort", "SocksPort"), es("DNSPort", "5353"), es("SocksPort", "9150"), rd("DNSPort")])
+        yield dict(b, steps=[ev(("FirewallPorts", "=LongLivedPorts")), af("FirewallPorts", "LongLivedPorts"),
+                             es("FirewallPorts", "443"), es("LongLivedPorts", "706"), rd("FirewallPorts")])
+        yield dict(b, steps=[af("NodeFamily", "Log"), es("Log", "info stdout"), es("NodeFamily", "c,d"), rd("Log")])
     # comma-list options another controller resets: announced without a value -> the (comma-joined) default, parsed
     t6 = [O("LongLivedPorts", "CommaList", value=["80"], default=["21,22,706,1863"]),
           O("ExcludeNodes", "RouterList", default=["{us},$" + "A" * 40 + ",nick1"]),
@@ -1122,6 +1209,10 @@ def run(ctx):
 
 
 MUTANTS = [
+    ("assigned-tracked-list-not-copied", "txtorcon/torconfig.py",
+     "            if isinstance(value, list):\n                value = _ListWrapper(\n                    value, functools.partial(self.mark_unsaved, name))",
+     "            if isinstance(value, list) and not isinstance(value, _ListWrapper):\n                value = _ListWrapper(\n"
+     "                    value, functools.partial(self.mark_unsaved, name))"),
     # an option announced without a value: the default goes through the declared type's parser
     ("event-unset-default-not-parsed", "txtorcon/torconfig.py",
      "                        v = self.__dict__['_defaults'].get(real_name, [])\n                    if not isinstance(v, list):",
